@@ -220,7 +220,7 @@ contract(
                                collisionMode=cfg["collisionMode"],
                                collisionReportingMode=cfg["collisionReportingMode"]),
     requires=["0 <= entry.start", "entry.end <= 1e15"],
-    spec="spec.tiers.IntervalTier_insertEntry", spec_first=True,
+    spec="spec.tiers.IntervalTier_insertEntry", spec_first=True, engine_opts={"sorted_forward": True},
     ensures=wf_interval_clauses("self"),
 )
 
@@ -236,14 +236,18 @@ REGION = ["0 <= start", "self.minTimestamp <= start", "end <= self.maxTimestamp"
 contract(
     IT + ".eraseRegion",
     serves=["C07", "C05", "C10", "C13"],
+    # doShrink=True (shift + re-joining of a straddler through pop/pop/insert) was attempted against
+    # spec.tiers.IntervalTier_eraseRegion and abandoned: 5 obligations stayed undischarged at > 100k ground facts
+    # per query; the shrink step is decided by the bounded check c07_erase instead
     configs={"collisionMode": ["truncate", "categorical", "error", "bogus"], "doShrink": [False]},
     inputs=lambda S, cfg: dict(self=distinct_interval_tier(S, "self"), start=S.real("start"), end=S.real("end"),
                                collisionMode=cfg["collisionMode"], doShrink=cfg["doShrink"]),
     requires=REGION,
-    spec="spec.tiers.IntervalTier_eraseRegion_noshrink", spec_first=True,
+    spec="spec.tiers.IntervalTier_eraseRegion", spec_first=True, engine_opts={"sorted_forward": True},
     ensures=wf_interval_clauses("result") + [
-        ("span-unchanged", "result.minTimestamp == self.minTimestamp and result.maxTimestamp == self.maxTimestamp"),
-        ("nothing-inside", "forall(result.entries, lambda e: not overlaps(e, start, end))")],
+        ("span", "result.minTimestamp == self.minTimestamp and result.maxTimestamp == "
+                 "(start + (self.maxTimestamp - end) if doShrink else self.maxTimestamp)"),
+        ("nothing-inside", "doShrink or forall(result.entries, lambda e: not overlaps(e, start, end))")],
     frame=["self"],
 )
 
@@ -288,7 +292,7 @@ contract(
                                collisionMode=cfg["collisionMode"],
                                collisionReportingMode=cfg["collisionReportingMode"]),
     requires=["0 <= entry.time", "entry.time <= 1e15"],
-    spec="spec.tiers.PointTier_insertEntry", spec_first=True,
+    spec="spec.tiers.PointTier_insertEntry", spec_first=True, engine_opts={"sorted_forward": True},
     ensures=[("in-span", "forall(self.entries, lambda p: self.minTimestamp <= p.time and p.time <= self.maxTimestamp)"),
              ("stripped", "forall(self.entries, lambda p: strip(p.label) == p.label)"),
              ("sorted", "is_sorted(self.entries)")],
